@@ -49,11 +49,35 @@ Definition run_check (n : netlist) (c : sx) : res sx :=
   | _ => Err "unknown check"
   end.
 
+Definition sx_named {T} (f : sx -> res T) (x : sx) : res (string * T) :=
+  match x with L [A k; v] => do v <- f v; Ok (k, v) | _ => Err "(name value) expected" end.
+Definition sx_quad (x : sx) : res (Z * (Z * (Z * Z))) :=
+  match x with
+  | L [a; b; c; d] => do a <- sx_Z a; do b <- sx_Z b; do c <- sx_Z c; do d <- sx_Z d; Ok (a, (b, (c, d)))
+  | _ => Err "quadruple expected"
+  end.
+Definition sx_text_facts (args : list sx) : res text_facts :=
+  match args with
+  | [br; de; us; av; li; fi; sa; rb; wo] =>
+      do br <- sx_listof (sx_named (sx_listof sx_Z)) br; do de <- sx_listof (sx_named (sx_listof sx_str)) de;
+      do us <- sx_listof (sx_named (sx_listof sx_str)) us; do av <- sx_listof (sx_named (sx_listof sx_str)) av;
+      do li <- sx_listof sx_quad li;
+      do fi <- sx_listof (fun x => match x with
+                                   | L [A nm; w; v] => do w <- sx_Z w; do v <- sx_Z v; Ok (nm, (w, v))
+                                   | _ => Err "field expected"
+                                   end) fi;
+      do sa <- sx_listof sx_quad sa; do rb <- sx_opt sx_Z rb; do wo <- sx_listof sx_word wo;
+      Ok {| tf_brackets := br; tf_decl := de; tf_used := us; tf_avail := av; tf_lits := li; tf_fields := fi;
+            tf_sam := sa; tf_route_bits := rb; tf_words := wo |}
+  | _ => Err "c12: arity"
+  end.
+
 Definition dispatch (cmd : string) (args : list sx) : res sx :=
   if str_eqb cmd "c17" then handle_c17 args
   else if str_eqb cmd "c16" then handle_c16 args
   else if str_eqb cmd "c18" then handle_c18 args
   else if str_eqb cmd "c19" then handle_c19 args
+  else if str_eqb cmd "c12" then do f <- sx_text_facts args; Ok (fails_to_sx (chk_C12 f))
   else if str_eqb cmd "chk" then
     match args with
     | nl :: checks => do n <- sx_netlist nl; do rs <- mapM (run_check n) checks; Ok (L rs)
